@@ -267,6 +267,41 @@ func VString(v *ast.Value) string { panic("ghost") }
 //@ modifies-assumed fresh
 //@ end
 
+//@ define inEnum(l ast.EnumValueList, n string) bool = exists(m, 0, len(l), l[m].Name == n)
+//@ define inDirs(l ast.DirectiveList, n string) bool = exists(m, 0, len(l), l[m].Name == n)
+//@ assume-nonnil-elems *ast.EnumValueDefinition
+//@ assume-nonnil-elems *ast.Directive
+
+//@ func mergeEnumValues$1
+//@ props C03
+//@ assumes d != nil
+//@ ensures[key] result == d.Name
+//@ end
+
+//@ func mergeEnumValues
+//@ props C03
+//@ assumes[no-alias] base(a) == 0 || base(a) != base(b)
+//@ ensures[enum-a] forall(i, 0, len(a), inEnum(result, old(a[i].Name)))
+//@ ensures[enum-b] forall(i, 0, len(b), inEnum(result, old(b[i].Name)))
+//@ ensures[enum-fresh] base(result) == 0 || fresh(result)
+//@ modifies-assumed fresh
+//@ end
+
+//@ func mergeDirectiveLists$1
+//@ props C03
+//@ assumes d != nil
+//@ ensures[key] result == d.Name
+//@ end
+
+//@ func mergeDirectiveLists
+//@ props C03
+//@ assumes[no-alias] base(a) == 0 || base(a) != base(b)
+//@ ensures[dir-a] forall(i, 0, len(a), inDirs(result, old(a[i].Name)))
+//@ ensures[dir-b] forall(i, 0, len(b), inDirs(result, old(b[i].Name)))
+//@ ensures[dir-fresh] base(result) == 0 || fresh(result)
+//@ modifies-assumed fresh
+//@ end
+
 //@ func mergeCustomObjects
 //@ props C05 C03
 //@ returns res, err
@@ -278,6 +313,10 @@ func VString(v *ast.Value) string { panic("ghost") }
 //@ ensures[members-a-kept] err == nil ==> forall(i, 0, len(a.Types), inStrings(res.Types, a.Types[i])) @props C03
 //@ ensures[members-b-kept] err == nil ==> forall(i, 0, len(b.Types), inStrings(res.Types, b.Types[i])) @props C03
 //@ ensures[kind-name] err == nil ==> res.Kind == a.Kind && res.Name == a.Name @props C03
+//@ ensures[enum-a-kept] err == nil ==> forall(i, 0, len(a.EnumValues), inEnum(res.EnumValues, old(a.EnumValues[i].Name))) @using enum-a, enum-fresh @props C03
+//@ ensures[enum-b-kept] err == nil ==> forall(i, 0, len(b.EnumValues), inEnum(res.EnumValues, old(b.EnumValues[i].Name))) @using enum-b, enum-fresh @props C03
+//@ ensures[directives-a-kept] err == nil ==> forall(i, 0, len(a.Directives), inDirs(res.Directives, old(a.Directives[i].Name))) @using dir-a, dir-fresh @props C03
+//@ ensures[directives-b-kept] err == nil ==> forall(i, 0, len(b.Directives), inDirs(res.Directives, old(b.Directives[i].Name))) @using dir-b, dir-fresh @props C03
 //@ modifies-assumed fresh
 //@ end
 
